@@ -714,7 +714,9 @@ class Node:
             children.insert(insert_pos, node)
 
         if deep and source_node:
-            node._add_from(source_node)
+            # `node` may have been added inside the branch of `source_node`:
+            # pass it, so the new copy is not copied into itself recursively.
+            node._add_from(source_node, _skip=node)
 
         return node
 
@@ -954,9 +956,17 @@ class Node:
         return res  # type: ignore
 
     def _add_from(
-        self, other: Node, *, predicate: Optional[PredicateCallbackType] = None
+        self,
+        other: Node,
+        *,
+        predicate: Optional[PredicateCallbackType] = None,
+        _skip: Optional[Node] = None,
     ) -> None:
         """Append copies of all source descendants to self.
+
+        `_skip` is the top node of the copy that is currently created. It is
+        ignored when it shows up in the source branch (which happens if a branch
+        is copied to a target inside this branch).
 
         See also :ref:`iteration-callbacks`.
         """
@@ -965,10 +975,12 @@ class Node:
 
         assert not self._children
         for child in other.children:
+            if child is _skip:
+                continue
             new_child = self.add_child(child.data, data_id=child._data_id)
             if child.children:
                 # if child.has_children():
-                new_child._add_from(child, predicate=None)
+                new_child._add_from(child, predicate=None, _skip=_skip)
         return
 
     def _add_filtered(self, other: Node, predicate: PredicateCallbackType) -> None:
